@@ -288,6 +288,29 @@ type Item { x: Int! }
 		// query only, no mutation / subscription, no directives, no inputs
 		"queryonly": {"schema/s.graphqls": `type Query { a: String }
 `},
+		// the documented inline-config directives (docs/content/config.md, recipes/extra_fields.md)
+		"godirectives": {"schema/s.graphqls": goDirectives + `directive @goExtraField(name: String, type: String!, overrideTags: String, description: String) repeatable on OBJECT | INPUT_OBJECT
+scalar Big @goModel(model: "github.com/99designs/gqlgen/graphql.Int64")
+scalar AnyMap @goModel(model: "github.com/99designs/gqlgen/graphql.Map")
+scalar Anything @goModel(model: "github.com/99designs/gqlgen/graphql.Any")
+input Changes @goModel(model: "map[string]interface{}") { a: Int b: Int }
+type T
+  @goExtraField(name: "Secret", type: "string", overrideTags: "xml:\"secret\"", description: "not exposed")
+  @goExtraField(name: "Activated", type: "bool")
+  @goExtraField(type: "time.Time", description: "embedded") {
+  id: ID! @goTag(key: "db", value: "id") @goTag(key: "yaml")
+  renamed: String @goField(name: "OtherName")
+  forced: Int @goField(forceResolver: true)
+  big: Big
+  m: AnyMap
+  any: Anything
+}
+input TI @goExtraField(name: "Trace", type: "string") {
+  x: Int @goTag(key: "validate", value: "min=1")
+  opt: String @goField(omittable: true)
+}
+type Query { t(c: Changes, i: TI, any: Anything, m: AnyMap, big: Big): T }
+`},
 		// same-name-different-case fields renamed through @goField(name:) as the testserver does
 		"gofieldrename": {"schema/s.graphqls": goDirectives + `type Query { v: V w(in: VI): String }
 type V {
